@@ -2,6 +2,7 @@
    Only property theorems here; each closed by `exact` of a lemma from Proofs/. *)
 From Flyt Require Import Base Script FlowTable Engine EngineCorr EngineFacts Lifecycle
      LifecycleProofs SpecEngine EngineSpecProofs.
+From Flyt Require Import C05Glue.
 
 (* context already done: no callback, error matches the context's error (user node or flow) *)
 Theorem C05_pre_cancelled :
@@ -24,12 +25,7 @@ Theorem C05_no_new_work :
       exists evs, log s' = log s ++ evs /\
                   no_new_work_after_cancel (fun _ => true) (cancelled s) evs = true /\
                   lifecycle_ok tbl (cancelled s) evs oc = true.
-Proof.
-  intros o ce tbl Hf fuel s n s' oc H.
-  destruct (run_lc o ce tbl Hf _ _ _ _ _ H) as [evs [st [L [R F]]]].
-  exists evs. split; [exact L|]. split; [eapply lrun_no_new_work; eauto|].
-  unfold lifecycle_ok. rewrite R. now apply final_ok_accept.
-Qed.
+Proof. exact C05_no_new_work_glue. Qed.
 Print Assumptions C05_no_new_work.
 
 Theorem C05_spec_holds_of_model :
